@@ -1,0 +1,26 @@
+//go:build verif
+// +build verif
+
+package gobinlog
+
+import "sync/atomic"
+
+// Verification hooks (build tag "verif" only). A hook is a named point at a linearization point
+// of the session layer; the installed function may record it and may block (scheduler gate).
+// Without the tag verifPoint is an empty function (verif_off.go).
+
+var verifHook atomic.Value // func(point string)
+
+// VerifSetHook installs (or, with nil, removes) the hook function.
+func VerifSetHook(f func(point string)) {
+	if f == nil {
+		f = func(string) {}
+	}
+	verifHook.Store(f)
+}
+
+func verifPoint(point string) {
+	if f, ok := verifHook.Load().(func(string)); ok {
+		f(point)
+	}
+}
